@@ -446,6 +446,11 @@ func tomlEncs(v *V, m mode) encSet {
 			out = append(out, enc{B: []byte(sd.String()), L: "dotted"})
 		}
 	}
+	// every notation of the value (enc_toml_forms.go): headers, arrays of tables,
+	// inline tables, dotted keys, scalar spellings, layouts
+	if !m.canon {
+		out = append(out, tomlForms(v, m)...)
+	}
 	return dedupe(out)
 }
 
